@@ -236,6 +236,38 @@ def run(model, col, tier):
     vals = find_assign(vc, "values")
     col.check(bool(vals) and isinstance(vals[0], ast.ListComp) and unparse(vals[0].generators[0].iter) == vc.args.args[1].arg and not vals[0].generators[0].ifs, "R04.7", f"{LOWER}::v_ConstructPrimitiveExpression argument order",
               "arguments are visited in source order", "constructor arguments are not lowered in source order", LOWER, vc)
+    # constructor arguments are converted to the result's component type whenever their component type differs
+    from ..sem import local_env as _lenv, rtext as _rtext
+
+    cpv = model.cls("nsl/passes/AddImplicitCasts.py", "AddImplicitCastVisitor").own_method("v_ConstructPrimitiveExpression")
+    cenv = _lenv(cpv)
+    casts = [n for n in ast.walk(cpv) if isinstance(n, ast.If) and any(isinstance(c, ast.Call) and last_attr(c) == "CastExpression" for s in n.body for c in ast.walk(s))]
+    okc = False
+    ctext = None
+    if casts:
+        t_ = _rtext(casts[0].test, cenv).replace(" ", "")
+        ctext = _rtext(casts[0].test, cenv)
+        okc = t_ in ("p.GetType().GetComponentType()!=node.GetType().GetComponentType()", "node.GetType().GetComponentType()!=p.GetType().GetComponentType()")
+        keeps = any("arguments.append(p)" in unparse(s) for s in casts[0].orelse)
+        okc = okc and keeps
+    col.check(okc, "R04.7", "nsl/passes/AddImplicitCasts.py::v_ConstructPrimitiveExpression cast condition",
+              "an argument is cast exactly when its component type differs from the result's component type (scalars and vectors alike)",
+              f"the cast of a constructor argument is guarded by `{ctext}`: arguments whose component type differs from the result's are not all converted "
+              "(an int vector built from a float sub-vector keeps float components)", "nsl/passes/AddImplicitCasts.py", cpv)
+    tgt = [c for c in ast.walk(cpv) if isinstance(c, ast.Call) and last_attr(c) == "_GetTargetType"]
+    col.check(bool(tgt) and _rtext(tgt[0].args[0], cenv) == "p.GetType()" and _rtext(tgt[0].args[1], cenv) == "node.GetType().GetComponentType()", "R04.7",
+              "nsl/passes/AddImplicitCasts.py::v_ConstructPrimitiveExpression cast target", "target = the argument's shape with the result's component type", None, "nsl/passes/AddImplicitCasts.py", cpv)
+    setargs = [c for c in ast.walk(cpv) if isinstance(c, ast.Call) and last_attr(c) == "SetArguments"]
+    col.check(bool(setargs) and unparse(setargs[0].args[0]) == "arguments", "R04.7", "nsl/passes/AddImplicitCasts.py::v_ConstructPrimitiveExpression installs the converted arguments", "node.SetArguments(arguments)", None, "nsl/passes/AddImplicitCasts.py", cpv)
+    # ---------------- R04.9 component-type promotion of vector/matrix operands (= R09.2/R09.3) --------
+    from . import c09
+
+    sub = Collector("C09")
+    c09.run(model, sub, "quick")
+    for ob in sub.obligations:
+        if ob.rule in ("R09.2", "R09.3"):
+            ob.rule = "R04.9"
+            col.obligations.append(ob)
     # ---------------- R04.8 ------------------------------------------------------
     s = " ".join(unparse(ast.Module(body=sh.body, type_ignores=[])).split())
     reads_type = "instruction.Type" in s
